@@ -483,12 +483,12 @@ Let h := snd (ustar_header e tt true).
 
 (* the pathname comes back from prefix and name, provided it has no NUL and the byte in front of the
    separator chosen by the writer is not itself a '/' (the reader does not add a second one) *)
-Theorem ustar_ok_pathname :
+Theorem ustar_ok_pathname_gen : forall always,
   no_nul (ob (e_path e)) ->
-  (forall i, ustar_split (ob (e_path e)) = Some i -> nth (i - 1) (ob (e_path e)) 0%Z <> slash) ->
-  ustar_join (slice R_tar_prefix_offset R_tar_prefix_size h) (slice R_tar_name_offset R_tar_name_size h) = ob (e_path e).
+  (always = false -> forall i, ustar_split (ob (e_path e)) = Some i -> nth (i - 1) (ob (e_path e)) 0%Z <> slash) ->
+  ustar_join_gen always (slice R_tar_prefix_offset R_tar_prefix_size h) (slice R_tar_name_offset R_tar_name_size h) = ob (e_path e).
 Proof.
-  intros Hnn Hds. subst h. set (pp := ob (e_path e)) in *.
+  intros always Hnn Hds. subst h. set (pp := ob (e_path e)) in *.
   destruct (ustar_name_writes_ok pp (uf_name _ _ facts)) as [[Hlen Hw] | [i [Hlen [Hsp [Hi1 [Hi2 Hw]]]]]].
   - (* short name: one write, prefix untouched *)
     assert (Hname : slice USTAR_name_offset USTAR_name_size (snd (ustar_header e tt true)) = pp ++ zeros (USTAR_name_size - length pp)).
@@ -505,7 +505,7 @@ Proof.
       unfold ustar_fields; cbv zeta; cbn [snd]. fold pp. rewrite Hw. cbn [app]. away_all. }
     change R_tar_prefix_offset with USTAR_prefix_offset. change R_tar_prefix_size with USTAR_prefix_size.
     change R_tar_name_offset with USTAR_name_offset. change R_tar_name_size with USTAR_name_size.
-    rewrite Hpre, Hname. cbn [USTAR_prefix_size zeros repeat ustar_join]. change (0 =? 0)%Z with true. cbv iota.
+    rewrite Hpre, Hname. cbn [USTAR_prefix_size zeros repeat ustar_join_gen]. change (0 =? 0)%Z with true. cbv iota.
     apply cstr_app_zeros. assumption.
   - (* split name *)
     set (pre := firstn i pp) in *. set (nm := skipn (S i) pp) in *.
@@ -536,17 +536,33 @@ Proof.
     assert (Hnpre : no_nul pre) by (apply no_nul_firstn; assumption).
     assert (Hnnm : no_nul nm) by (apply no_nul_skipn; assumption).
     destruct pre as [|c pre'] eqn:Epre; [cbn [length] in Lpre; lia|].
-    cbn [app ustar_join].
+    cbn [app ustar_join_gen].
     assert (Hc0 : c <> 0%Z) by (inversion Hnpre; assumption).
     destruct (c =? 0)%Z eqn:Ec; [apply Z.eqb_eq in Ec; contradiction|].
     change (c :: pre' ++ zeros (USTAR_prefix_size - length (c :: pre'))) with ((c :: pre') ++ zeros (USTAR_prefix_size - length (c :: pre'))).
     rewrite cstr_app_zeros by assumption. rewrite cstr_app_zeros by assumption.
     rewrite <- Epre.
     assert (Hl : last_byte pre = nth (i - 1) pp 0%Z) by (unfold pre; apply last_byte_firstn; lia).
-    rewrite Hl. specialize (Hds i Hsp).
-    destruct (nth (i - 1) pp 0 =? slash)%Z eqn:El; [apply Z.eqb_eq in El; contradiction|].
+    rewrite Hl.
+    assert (Hc : always || negb (nth (i - 1) pp 0 =? slash)%Z = true).
+    { destruct always; [reflexivity|]. cbn [orb]. specialize (Hds eq_refl i Hsp).
+      destruct (nth (i - 1) pp 0 =? slash)%Z eqn:El; [apply Z.eqb_eq in El; contradiction | reflexivity]. }
+    rewrite Hc.
     rewrite <- S4. rewrite <- app_assoc. unfold pre, nm. apply firstn_skipn_middle. assumption.
 Qed.
+
+(* the statement for the shape of the reader the source has *)
+Theorem ustar_ok_pathname :
+  no_nul (ob (e_path e)) ->
+  (forall i, ustar_split (ob (e_path e)) = Some i -> nth (i - 1) (ob (e_path e)) 0%Z <> slash) ->
+  ustar_join (slice R_tar_prefix_offset R_tar_prefix_size h) (slice R_tar_name_offset R_tar_name_size h) = ob (e_path e).
+Proof. intros Hnn Hds. apply ustar_ok_pathname_gen; [assumption | intros _; assumption]. Qed.
+
+(* a reader that always puts the '/' needs no side condition *)
+Theorem ustar_ok_pathname_always :
+  no_nul (ob (e_path e)) ->
+  ustar_join_gen true (slice R_tar_prefix_offset R_tar_prefix_size h) (slice R_tar_name_offset R_tar_name_size h) = ob (e_path e).
+Proof. intros Hnn. apply ustar_ok_pathname_gen; [assumption | discriminate]. Qed.
 
 End UstarOkStrings.
 
